@@ -65,12 +65,19 @@ def run_e2e(report, n_fonts, rng):
         solid = fmt != "glyf" and rng.random() < 0.6
         cfg_over = e2e.gen_config(rng, fmt)
         docs, srcs = e2e.gen_sources(rng, solid_only=solid, allow_groups=not solid, var_opaque=True)
+        # the first fonts go through the real command line with the values most easily lost on the way (zeros, false)
+        via = {0: "flag", 1: "file", 3: "flag"}.get(i)
+        if via:
+            cfg_over = dict(color_format=fmt, upem=1000, ascender=1000, descender=0, width=0 if i != 1 else 1000, clip_to_viewbox=i != 1, keep_glyph_names=False)
+            if fmt.startswith("cff"):
+                cfg_over["output_file"] = "Font.otf"
         try:
-            font, cfg, picos, data = build.build_inprocess(cfg_over, srcs)
+            font, cfg, picos, data = build.build_cli(cfg_over, srcs, via) if via else build.build_inprocess(cfg_over, srcs)
         except Exception as ex:
             report_failure(report, f"e2e_build_{i}", dict(kind="e2e", format=fmt, config={k: str(v) for k, v in cfg_over.items()}, sources=[s[1] for s in srcs], error=f"{type(ex).__name__}: {ex}"))
             return
         report.hist("e2e.format", fmt + (" solid" if solid else ""))
+        report.hist("e2e.built_by", "command line, options by " + via if via else "in process")
         glyphset = font.getGlyphSet()
         for (fn, text, cps), pico in zip(srcs, picos):
             vb = e2e.viewbox_of_pico(pico)
